@@ -176,7 +176,7 @@ def l3(ctx, F, U):
             ctx.check("C08.L3", "depth-accounting:%s#%d" % (path.split("::")[-1], n), got == want, fn=path, file=fn["file"], line=hir.line(c),
                       what="remaining depth and distance from the root must add up to the iteration depth at every call "
                            "(the per-ply tables are sized by that sum)", expected=want, found=got)
-    ctx.floor("C08.L3", "recursive call sites", n, 6)
+    ctx.floor("C08.L3", "recursive call sites", n, 3)       # 6 on the reference tree
     # (b) killer table length and index guards
     klen = None
     for l in entry["mir"]["locals"]:
